@@ -38,7 +38,13 @@ def run(ctx):
         states += r["distinct"]
         trans += r["generated"]
         per[net] = {"distinct": r["distinct"], "generated": r["generated"]}
+    import mailboxlife
+    s2, t2 = mailboxlife.model_check(ctx)
+    states += s2
+    trans += t2
     binary = build_drivers(ctx)
+    # the same property one layer up: Close of real ClientConn / ServerConn
+    ctx.cov.update(mailboxlife.validate(ctx, binary))
     out = ctx.sub("c12")
     rc, o = run_driver(ctx, binary, "TestC12Close", out, timeout=900)
     if rc != 0 and not gbntrace.crash_report(ctx, o, "c12"):
